@@ -3,6 +3,7 @@
 mod ck;
 mod e2;
 mod lockeng;
+mod orc;
 mod ri;
 mod util;
 mod wal;
@@ -20,6 +21,8 @@ fn main() {
     let mut wal_engine: Option<wal::WalEngine> = None;
     let mut e2_engine: Option<e2::E2> = None;
     let mut lk_engine: Option<lockeng::Lk> = None;
+    let mut orc_engine: Option<orc::OrcEngine> = None;
+    let mut cs_engine: Option<orc::CsEngine> = None;
     let mut ri_engine: Option<ri::Ri> = None;
     std::panic::set_hook(Box::new(|_| {}));
     for line in stdin.lock().lines() {
@@ -31,6 +34,16 @@ fn main() {
         let res = std::panic::catch_unwind(std::panic::AssertUnwindSafe(|| match toks[0] {
             "wal" => wal_engine.get_or_insert_with(wal::WalEngine::new).cmd(&toks[1..]),
             "ck" => ck::cmd(&toks[1..]),
+            "orc" => orc_engine.get_or_insert_with(orc::OrcEngine::new).cmd(&toks[1..]),
+            "cs" => {
+                if toks.len() > 1 && toks[1] == "new" {
+                    cs_engine = None; // closes the previous store and removes its directory
+                    cs_engine = Some(orc::CsEngine::new());
+                    "ok".to_string()
+                } else {
+                    cs_engine.get_or_insert_with(orc::CsEngine::new).cmd(&toks[1..])
+                }
+            }
             "ri" => ri_engine.get_or_insert_with(ri::Ri::new).cmd(&toks[1..]),
             "e2" => {
                 if toks.len() > 2 && toks[1] == "newat" {
